@@ -101,6 +101,13 @@ func PrepareGo(ws *Workspace, schemas []gschema.Schema, conf Configure, driverEx
 			dp.Extra = driverExtra(c, dp.Alias())
 		}
 		pkgs = append(pkgs, dp)
+		for _, extra := range c.Unit.ExtraPkgs {
+			xapi, err := ws.ParseGoAPI(c.Unit.ID + "/" + extra)
+			if err != nil {
+				continue
+			}
+			pkgs = append(pkgs, DriverPkg{Key: c.Unit.ID + "/" + extra, Import: prefix + extra, API: xapi})
+		}
 	}
 	if e, ok := errs["verifgen/?"]; ok {
 		return nil, fmt.Errorf("go build reported errors outside any package: %v", e)
